@@ -26,7 +26,7 @@
   * Point queries (mode = point) return a two-element [from, to) range, not an axis; the axis theorems are stated
     for the other modes (`isPoint a = false`), `steps_valid_nonincreasing` for all modes.
 
-  Proved at full strength (∀ inputs): mathDiv_is_floor, roundTime_is_aligned_floor, calcUTCOffset_week_start,
+  Proved at full strength (∀ inputs): mathDiv_is_floor, roundTime_is_aligned_floor, roundTime_floor (all t : Int, negative included), calcUTCOffset_week_start,
     time_strictly_increasing, axis_length, adjacent_diff_is_lod_step, points_aligned, steps_valid_nonincreasing,
     start_index_covered, lods_contiguous_and_match_points, points_bounded (len Time ≤ maxPoints + 3),
     range_end_covered (last point before End, one more step reaches End, the `extend` point, ViewEndX),
@@ -59,6 +59,24 @@ theorem roundTime_is_aligned_floor (t step off : Int) (hs : 0 < step) :
   ⟨roundTime_aligned t step off hs, roundTime_bracket t step off hs⟩
 
 example : roundTime 100 60 0 = 60 ∧ roundTime (-1) 60 10800 = -60 := by decide
+
+/-- rounding goes DOWN, by less than one step, for every `t : Int` — negative `t + utcOffset` (times before 1970, or the first
+    days of 1970 under a negative offset) included -/
+theorem roundTime_floor (t step off : Int) (hs : 0 < step) :
+    roundTime t step off ≤ t ∧ t - roundTime t step off < step := by
+  have := roundTime_bracket t step off hs
+  omega
+
+/-- the model's `mathDiv` is built from Go's truncating `/` and `%` (Int.tdiv / Int.tmod) plus the correction branch; it is floor
+    division, not T-division: for a negative dividend the two differ -/
+example : mathDiv (-1) 60 = -1 ∧ Int.tdiv (-1) 60 = 0 ∧ Int.fdiv (-1) 60 = -1 := by decide
+
+/-- seeded variant C22-r5-1 as a counter-example: `t - (t+utcOffset) % step` with the truncating `%` rounds 1969-12-31T23:59:59 UP
+    to 1970-01-01T00:00:00 (and, under utcOffset = -5h, the first hours of 1970 up as well), violating `result ≤ t`;
+    for `t + utcOffset ≥ 0` it agrees with the code -/
+example : roundTimeTrunc (-1) 60 0 = 0 ∧ ¬ (roundTimeTrunc (-1) 60 0 ≤ -1) ∧ roundTime (-1) 60 0 = -60 ∧
+    roundTimeTrunc 3601 86400 (-18000) = 18000 ∧ roundTime 3601 86400 (-18000) = -68400 ∧
+    roundTimeTrunc 100 60 0 = roundTime 100 60 0 := by decide
 
 /-- week start: with `off = calcUTCOffset ws z`, a time is 7d-aligned iff its local time (zone offset `z`) is a multiple of
     a week after 1970-01-01 shifted to weekday `ws` — local day number ≡ ws - 4 (mod 7), 1970-01-01 being a Thursday (4). -/
